@@ -231,6 +231,18 @@ def run_c05(tier, seed):
         cfg = base_cfg(rng, rng.random() < 0.4, rng.choice(['absent', 'inline', 'file', 'both']),
                        stats=rng.random() < 0.25, policy=rng.choice(['lrs', 'lru', 'lfu', 'none']))
         jobs_rand.append((cfg, prog, rng.choice(['pct', 'random']), seed * 100000 + i, 0))
+    # value files sharing one sub-directory: storing a file-backed value while the removal of the last other file prunes
+    # the directory (the store creates the directory, the removal deletes it when empty)
+    stores = [op('set', k=KB, v=F2, ttl=[], tag=0), op('add', k=KB, v=F3, ttl=[], tag=0), op('push', v=F1, p=[], back=1, ttl=[], tag=0),
+              op('set', k=KA, v=F3, ttl=[], tag=0)]
+    removes = [op('delete', k=KA, mk='false'), op('pop', k=KA, fx=0, ft=0), op('set', k=KA, v=5, ttl=[], tag=0), op('clear')]
+    combos = [(a, b) for a in stores for b in removes]
+    rng.shuffle(combos)
+    for a, b in combos[:(5 if tier == 'quick' else len(combos))]:
+        cfg = base_cfg(rng, False, 'file')
+        cfg['collide'] = 1
+        jobs_dfs.append((cfg, {1: [a], 2: [b]}, 2, 120 if tier == 'quick' else 600, seed, tid))
+        tid += 1000
     # threads sharing one Cache object (clients 1 and 2; client 3 has its own): the object's record of which thread
     # owns the transaction must survive failing calls, waiting for the lock and the moment after its release
     def rt(o):
